@@ -24,6 +24,7 @@ def scenarios(rng, tier):
     S(**{'f:qp': 1}, content=1, w=128, h=96); S(**{'f:qp': 63})
     S(n=20, **{'f:enable_overlays': 1, 'f:hierarchical_levels': 4}); S(n=17, **{'f:tf_level': 0})
     S(bits=10); S(bits=10, content=1, **{'f:qp': 40})
+    S(n=150, w=128, h=64, content=8); S(n=140, w=128, h=64, content=2, **{'f:hierarchical_levels': 3, 'f:pred_structure': 2})     # across the 7-bit order-hint wrap (skip mode, sign bias, motion-field projection)
     S(**{'f:hierarchical_levels': 0}); S(**{'f:hierarchical_levels': 2, 'f:intra_period_length': 4}); S(n=14, **{'f:intra_refresh_type': 1, 'f:intra_period_length': 5})
     S(**{'f:enable_global_motion': 0, 'f:enable_warped_motion': 0, 'f:obmc_level': 0}); S(**{'f:enable_mfmv': 1, 'f:compound_level': 2}, n=14)
     S(**{'f:is_16bit_pipeline': 1}, w=200, h=136)           # 16-bit pipeline with 8-bit input (baseline finding D18)
